@@ -1,7 +1,7 @@
 """C10  Basic blocks partition each method at every control-flow boundary (DESIGN §7 C10)."""
 from contracts import cfgsuite as S, cfgworld as W
 from pyvc.core import And, Eq, Implies, Ite, Not, Or
-from pyvc.unit import unit
+from pyvc.unit import bare, unit
 from specs import dalvik_formats as F
 
 ANA, DEX = S.ANA, S.DEX
@@ -84,10 +84,10 @@ def determine_next(U, payload):
         pl = cls(U.cm(), SymBytes(raw) if U.mode == "sym" else bytes(raw))
         payload = "packed"
     elif payload in ("packed", "sparse"):
-        pl = object.__new__(m.PackedSwitch if payload == "packed" else m.SparseSwitch)
+        pl = bare(m.PackedSwitch if payload == "packed" else m.SparseSwitch)
         pl.targets = [t0, t1]
     elif payload == "other":
-        pl = object.__new__(m.FillArrayData)
+        pl = bare(m.FillArrayData)
     else:
         pl = None
     bc = _BC(pl)
